@@ -101,6 +101,31 @@ Definition disconnect (st : cstate) : disc_result * cstate :=
   (r, mkC false (rst st) (wio_ st) (rq st) q (next_tid st) (unit_id st)
           (if done then shutdowns st + 1 else shutdowns st)).
 
+(* disconnect whose future may be dropped while the shutdown is pending ([bg] = Pending polls it still gets):
+   the transport was taken out BEFORE the first suspension point, so the client is inert either way; a shutdown
+   that never completed is not counted *)
+Fixpoint shutdown_bg (q : list sdev) (bg : budget) : disc_result * list sdev * bool :=
+  match q with
+  | [] => (DROk, [], true)
+  | SdOk :: q' => (DROk, q', true)
+  | SdErr k :: q' =>
+      match k with
+      | KNotConnected | KBrokenPipe => (DROk, q', true)
+      | _ => (DRErr k, q', true)
+      end
+  | SdPend :: q' =>
+      match spend bg with
+      | None => (DRWait, q', false)
+      | Some bg' => shutdown_bg q' bg'
+      end
+  end.
+
+Definition disconnect_bg (st : cstate) (bg : budget) : disc_result * cstate :=
+  if negb (framed st) then (DROk, st) else
+  let '(r, q, done) := shutdown_bg (sq st) bg in
+  (r, mkC false (rst st) (wio_ st) (rq st) q (next_tid st) (unit_id st)
+          (if done then shutdowns st + 1 else shutdowns st)).
+
 (* ---- typed methods (src/client/mod.rs) ---- *)
 Inductive typed_result :=
 | TRBits (bs : list bool) | TRWords (ws : list N) | TRUnit
